@@ -180,4 +180,27 @@ MUTANTS = [
          old="            while n < batchsize:\n                t = deadline - time.perf_counter()", new="            while n <= batchsize:\n                t = deadline - time.perf_counter()"),
     dict(id='C19-m3', prop='C19', file=S, desc='past the deadline the batcher no longer picks up items that are already queued',
          old="                    z = q_in.get(timeout=max(0, t))", new="                    if t <= 0 and n > 1:\n                        raise queue.Empty\n                    z = q_in.get(timeout=max(0, t))"),
+    # ---------------- C03
+    dict(id='C03-m1', prop='C03', file=S, desc='Header yields n+1 elements when n equals 3',
+         old="            if n >= nn:\n                # Stop without", new="            if n >= nn + (nn == 3):\n                # Stop without"),
+    dict(id='C03-m2', prop='C03', file=S, desc='Tailer keeps n+1 elements',
+         old="        data = deque(maxlen=self.n)\n        for v in self._instream:", new="        data = deque(maxlen=self.n + 1)\n        for v in self._instream:"),
+    dict(id='C03-m3', prop='C03', file=S, desc='Batcher drops the final partial batch when it has a single element',
+         old="        if batch:\n            yield batch\n\n\nclass Unbatcher", new="        if len(batch) > 1 or (batch and batch_size == 1):\n            yield batch\n\n\nclass Unbatcher"),
+    dict(id='C03-m4', prop='C03', file=S, desc='Accumulator treats a falsy initializer (0) as not set',
+         old="                if z is NOTSET:\n                    z = x", new="                if z is NOTSET or not z:\n                    z = x"),
+    dict(id='C03-m5', prop='C03', file=S, desc='filter_exceptions checks drop before keep',
+         old="""                if keep_exc_types is not None and isinstance(x, keep_exc_types):
+                    return True
+                if drop_exc_types is not None and isinstance(x, drop_exc_types):
+                    return False""",
+         new="""                if drop_exc_types is not None and isinstance(x, drop_exc_types):
+                    return False
+                if keep_exc_types is not None and isinstance(x, keep_exc_types):
+                    return True"""),
+    dict(id='C03-m6', prop='C03', file=S, desc='Stream.buffer starts pulling at construction time (not lazy)',
+         old="        self.streamlets.append(Buffer(self.streamlets[-1], maxsize))\n        return self",
+         new="        self.streamlets.append(Buffer(iter(self.streamlets[-1]) if maxsize == 3 else self.streamlets[-1], maxsize))\n        return self"),
+    dict(id='C03-m7', prop='C03', file=S, desc='Shuffler loses the element it swaps out when the buffer index is 0',
+         old="                y = buffer[idx]\n                buffer[idx] = x\n                yield y", new="                y = buffer[idx]\n                buffer[idx] = x\n                if idx or buffersize < 3:\n                    yield y"),
 ]
